@@ -4,10 +4,19 @@ claimed / not_applicable split is always consistent with properties.jsonl)."""
 import json
 props=[json.loads(l)['id'] for l in open('/verif/properties.jsonl')]
 HIST="explicit-state BFS over operation histories on the real code + SQLite under virtual time (testing/synctest), reference-model oracle on every transition, drain from every state"
+def H(text, ref, note="SQLite backend only; gRPC handler objects driven in-process; depth bound per tier and scenario stated in the evidence; clock moves stay >=0.4s away from every deadline"):
+    return dict(level="model_checking", engine="E1 HistoryMC", technique=HIST, text=text, note=note, ref=ref)
 claimed={
- "C05": dict(level="model_checking", engine="E1 HistoryMC", technique=HIST,
-   text="Every operation history up to the stated depth over the ordered-delivery alphabet (keyed/un-keyed/batched publishes, pulls of size 1 and 10, acks in any order, nack, zero deadline, lease expiry) is executed on the real handlers; on every transition no message may be delivered while an earlier same-key message is outstanding, and the drain from every state must deliver everything. Bounded exhaustive, so it covers every interleaving of publishes and acks the tests never chain.",
-   note="SQLite backend; handlers in-process; depth bound per tier stated in evidence; batch publishes get distinct publish times through the 1µs/statement virtual tick", ref="§6 C05"),
+ "C01": H("All operation histories up to the stated depth over three configurations (plain+filtered+prune jobs; dead-letter; lifecycle+seek+snapshot+retention) are executed on the real handlers. On every transition the reference model decides which deliveries must / may / must not be offered; a message the model holds outstanding must keep a live delivery row and must be returned once its lease lapsed; from EVERY visited state a drain (pull past every backoff, ack everything) must deliver everything still owed.", "§6 C01"),
+ "C02": H("Histories over two topics / three to four subscriptions incl. dead-letter forwarding: every pull response is checked for membership (only deliveries owed to exactly that subscription), size <= max, no repeated ack id, and id / JSON value / attributes / ordering key equality with what Publish was given; acks, nacks, seeks and deletes of one subscription must leave the model's expectations for the others intact.", "§6 C02"),
+ "C03": H("Histories with ack of oldest/all/stale/unknown/duplicate/mixed/foreign ids, modify-deadline and nack after ack, dead-letter sweeps, lease expiry: an acknowledged delivery must never be returned again and its row must never become live again; stale/unknown ids must not disturb any other delivery; drain from every state.", "§6 C03"),
+ "C04": H("Per retry policy (absent, min only, max only, both, min>max) all histories of pull / modify-deadline (0, 5s, 60s) / nack / ack / clock moves to just before and just after each lease end: no redelivery before min(max,min*1.1^n), redelivery after it (+<1s jitter), delivery_attempt exactly n, positive deadlines only postpone, zero makes it due, nack reschedules by the backoff.", "§6 C04", note="SQLite only; concurrent pullers (schedule quantifier) are covered by the tx-level scheduler scenario when present in the evidence; saturation at maxBackoff is reached by the skeleton scenario"),
+ "C05": H("Every operation history up to the stated depth over the ordered-delivery alphabet (keyed/un-keyed/batched publishes, pulls of size 1 and 10, acks in any order, nack, zero deadline, lease expiry) is executed on the real handlers; on every transition no message may be delivered while an earlier same-key message is outstanding, a deliverable message may not be held back by an unrelated one, and the drain from every state must deliver everything.", "§6 C05"),
+ "C06": H("Dead-letter topologies (N=1,2,3; two DL subscribers one filtered; no subscriber; deleted DL topic; chain A->B->C with an ordered middle subscription) x all histories of pull / nack / zero deadline / ack / sweep / clock moves: never more than N deliveries on the source, retirement and forwarding happen in the same step, each live matching DL subscription receives the message exactly once with original id/payload/attributes, never after ack/expiry, never before N.", "§6 C06"),
+ "C12": H("All create / delete / re-create / get / list histories over topics, subscriptions and snapshots in projects p, P, pp, p_, p% (and ids differing by case), every List walked with page sizes 1, 2 and 100: AlreadyExists on live names, NotFound on absent ones, re-created subscriptions inherit no backlog or settings, the union of all pages equals the live set of exactly that project.", "§6 C12", note="SQLite only; racing creates (schedule quantifier) are decided by the tx-level scheduler scenario when present in the evidence"),
+ "C13": H("Histories of publish / pull / partial ack / snapshot (own and sibling subscription) / seek to snapshot / seek to time (before all, between messages, exactly a publish time, now, future) / further traffic: after each seek the model's expected backlog (unacked at snapshot + published since; or published after T) must be exactly what later pulls and the drain deliver.", "§6 C13"),
+ "C14": H("Retention 40s/10min, TTL 2min/1h, delivery delay 20s (also on a dead-letter subscription): clock moves to 1.5s before / 0.5s after each retention end, TTL end and delay end; a message is never delivered after its retention or before its delay and always while retained and due; the expiry sweep deletes a subscription iff a full TTL passed without pull activity; an expired subscription behaves as deleted.", "§6 C14"),
+ "C15": H("Histories with the seven maintenance jobs (min age 0 and 1h, batch 1 and 100) spliced in at every position: the client-visible oracles of C01-C06 must not notice them, live topics/subscriptions/outstanding deliveries must keep their rows; from EVERY visited state two convergence runs (delete everything / ack everything, +2h, jobs in a state-dependent order until a round reclaims nothing) must end with no failing job and no dead row.", "§6 C15"),
 }
 pending_reason="not claimed yet in this session: check under construction (see DESIGN.md §6); no alarm is raised for it"
 checks=[]
